@@ -8,6 +8,7 @@
 //!         bucket-a/{obj, dir/inner, empty/}    bucket-b/{obj, secret, dir/inner}
 //!         .bucket-<b64>.object-<b64>.metadata.json / .internal.json      (for some objects of both buckets)
 //!         .upload-<U1|U2>.json  .upload_id-<U1|U2>.part-<n>  .bucket-…upload-<U>.metadata.json
+//!         Bucket-A/obj   .upload-<UB>.json = {access_key, bucket: bucket-a, key: mp}   .upload_id-<UB>.part-<1|2>
 //! ```
 //! Every file has a unique size and unique content, so that anything an operation returns or copies can be traced
 //! to the file it came from.
@@ -64,6 +65,8 @@ use std::sync::Mutex;
 const U1: &str = "11111111-2222-4333-8444-555555555555";
 const U2: &str = "aaaaaaaa-bbbb-4ccc-8ddd-eeeeeeeeeeee";
 const U3: &str = "99999999-8888-4777-8666-555555555555"; // well-formed, no such upload
+/// an upload whose record is in the new form (41e1cf2): bound to bucket `bucket-a`, key `mp` (U1, U2: old form, unbound)
+const UB: &str = "bbbbbbbb-1111-4222-8333-444444444444";
 
 fn b64(s: &str) -> String {
     base64_simd::URL_SAFE_NO_PAD.encode_to_string(s)
@@ -91,6 +94,8 @@ enum Kind {
     MetaJson,
     InfoJson,
     Null,
+    /// upload record `{access_key, bucket, key}` bound to bucket-a / mp
+    BoundAMp,
 }
 
 struct LFile {
@@ -110,6 +115,8 @@ fn layout() -> (Vec<&'static str>, Vec<LFile>) {
         "root/bucket-a/empty",
         "root/bucket-b",
         "root/bucket-b/dir",
+        // a bucket whose name differs from bucket-a in letter case only (possible through the S3 trait)
+        "root/Bucket-A",
     ];
     let f = |rel: &str, label: &str, kind: Kind| LFile { rel: rel.to_owned(), label: label.to_owned(), kind };
     let files = vec![
@@ -134,6 +141,12 @@ fn layout() -> (Vec<&'static str>, Vec<LFile>) {
         f(&format!("root/.upload_id-{U2}.part-1"), &ulabel(U2), Kind::Plain),
         f(&format!("root/{}", meta_name("bucket-a", "mp", Some(U1))), &olabel("bucket-a", "mp", Some(U1)), Kind::MetaJson),
         f(&format!("root/{}", meta_name("bucket-b", "mp", Some(U2))), &olabel("bucket-b", "mp", Some(U2)), Kind::MetaJson),
+        // (appended: the content of a layout file depends on its index)
+        f("root/Bucket-A/obj", "B", Kind::Plain),
+        f(&format!("root/.upload-{UB}.json"), &ulabel(UB), Kind::BoundAMp),
+        f(&format!("root/.upload_id-{UB}.part-1"), &ulabel(UB), Kind::Plain),
+        f(&format!("root/.upload_id-{UB}.part-2"), &ulabel(UB), Kind::Plain),
+        f(&format!("root/{}", meta_name("bucket-a", "mp", Some(UB))), &olabel("bucket-a", "mp", Some(UB)), Kind::MetaJson),
     ];
     (dirs, files)
 }
@@ -146,6 +159,7 @@ fn content(i: usize, lf: &LFile) -> Vec<u8> {
         Kind::MetaJson => format!("{{\"tag\":\"{}\"}}", lf.rel).into_bytes(),
         Kind::InfoJson => format!("{{\"checksum_crc32\":\"{}\"}}", lf.rel).into_bytes(),
         Kind::Null => b"null".to_vec(),
+        Kind::BoundAMp => br#"{"access_key":null,"bucket":"bucket-a","key":"mp"}"#.to_vec(),
     };
     assert!(v.len() <= size, "layout content too long");
     let pad = if lf.kind == Kind::Plain { b'#' } else { b' ' };
@@ -1167,6 +1181,7 @@ fn generate(rng: &mut Rng, n: u64, tier: &str, emit: &mut dyn FnMut(Vec<String>)
         "{ROOT}/bucket-b/obj".into(),
         format!("{{ROOT}}/.upload-{U2}.json"),
         format!("{}x", &U1[..35]),
+        UB.into(),
     ];
     for u in &uploads {
         for part in [1i64, 0, -1, 7, 10000, 10001, 2_147_483_647] {
@@ -1181,6 +1196,36 @@ fn generate(rng: &mut Rng, n: u64, tier: &str, emit: &mut dyn FnMut(Vec<String>)
         }
         emit(mk("abort_multipart_upload", "bucket-a", "mp", "", "", u, 0, &[], "-", ""));
         emit(mk("abort_multipart_upload", "bucket-b", "mp", "", "", u, 0, &[], "-", ""));
+    }
+    // ---- the bound upload UB (record in the new form: bucket-a / mp) under its own bucket and key, under a bucket that differs
+    // in letter case only, under another bucket, under another key, under a key that differs in case only; U1 (old form,
+    // unbound) under the same addresses
+    let ub_simple = UB.replace('-', "");
+    for (bk, key) in [
+        ("bucket-a", "mp"),
+        ("Bucket-A", "mp"),
+        ("BUCKET-A", "mp"),
+        ("bucket-b", "mp"),
+        ("bucket-a", "obj"),
+        ("bucket-a", "MP"),
+        ("bucket-a", "Mp"),
+        ("Bucket-A", "MP"),
+        ("bucket-b", "obj"),
+        ("bucket-a", "mp/"),
+        ("bucket-a", "./mp"),
+    ] {
+        for u in [UB.to_owned(), UB.to_uppercase(), ub_simple.clone(), U1.to_owned()] {
+            let u = u.as_str();
+            for part in [1i64, 3] {
+                emit(mk("upload_part", bk, key, "", "", u, part, &[], "-", ""));
+                emit(mk("upload_part_copy", bk, key, "bucket-a", "obj", u, part, &[], "-", ""));
+            }
+            emit(mk("list_parts", bk, key, "", "", u, 0, &[], "-", ""));
+            for parts in ["1", "1,2", "2"] {
+                emit(mk("complete_multipart_upload", bk, key, "", "", u, 0, &[], parts, ""));
+            }
+            emit(mk("abort_multipart_upload", bk, key, "", "", u, 0, &[], "-", ""));
+        }
     }
     // flags of put_object
     for flags in ["", "m", "n", "s", "l", "ml", "sn"] {
